@@ -683,7 +683,8 @@ func runH3Stream(w *bufio.Writer, seed uint64, n int, _ []string) {
 			extra := r.Range(0, 2)
 			for k := 0; k < maxOps; k++ {
 				if withWrites && r.Chance(1, 3) {
-					b := r.Bytes(int(r.Pick(0, 1, 5, 63, 64, 200)))
+					b := r.Bytes(int(r.Pick(0, 1, 5, 63, 64, 200)) + r.Intn(9))
+					b = b[:len(b)-min(len(b), r.Intn(9))] // capacity beyond the length
 					nw, c, a := rig.Write(b)
 					opsS = append(opsS, u.App("OWrite", u.Hex(b)))
 					resS = append(resS, u.App("RWrite", u.Z(int64(nw)), u.Pair(u.Z(c), u.Z(a))))
